@@ -109,6 +109,12 @@ fn generate_hdpc_rows(Kprime: usize, S: usize, H: usize) -> DenseOctetMatrix {
     matrix
 }
 
+#[cfg(feature = "verif_hooks")]
+#[allow(non_snake_case)]
+pub fn verif_generate_hdpc_rows(Kprime: usize, S: usize, H: usize) -> DenseOctetMatrix {
+    generate_hdpc_rows(Kprime, S, H)
+}
+
 // See section 5.3.3.4.2
 // Returns the HDPC rows separately. These logically replace the rows S..(S + H) of the constraint
 // matrix. They are returned separately to allow easier optimizations.
